@@ -14,6 +14,9 @@ def esc(s):
     return escape(s).replace('\r', '&#13;')
 
 
+EMPTY_URL_ELEMENT = [False]
+
+
 def xml_elem(name, wire_ty, v, legacy):
     t, p = v['t'], v['v']
     if t == 'Enum':
@@ -23,7 +26,8 @@ def xml_elem(name, wire_ty, v, legacy):
     if t == 'Bool':
         return f'<bool name="{name}">{"true" if p else "false"}</bool>'
     if t == 'ContentId':
-        inner = f'<url>{esc(p)}</url>' if p else '<null></null>'
+        # the empty value has two conformant spellings: the null element, and a url element with no text
+        inner = f'<url>{esc(p)}</url>' if (p or EMPTY_URL_ELEMENT[0]) else '<null></null>'
         return f'<Content name="{name}">{inner}</Content>'
     if t == 'Content':
         if p['k'] == 'None':
@@ -110,7 +114,10 @@ def make(cases_path, files_path, seed, fmts=('bin', 'xml')):
                 except ValueError:
                     pass
             # ---- XML, both element orders
-            for order in (('legacy-first', 'new-first') if new else ('legacy-only',)) if 'xml' in fmts else ():
+            for order in (('legacy-first', 'new-first') if new else ('legacy-only', 'legacy-only-empty-url-element')) if 'xml' in fmts else ():
+                EMPTY_URL_ELEMENT[0] = order.endswith('empty-url-element')
+                if EMPTY_URL_ELEMENT[0] and not (leg['wire_ty'] == 'ContentId' and leg['value']['v'] == ''):
+                    continue
                 try:
                     elems = [xml_elem(leg['name'], leg['wire_ty'], leg['value'], True)]
                     if new:
